@@ -7,6 +7,15 @@ VAR_POOL = [("x", [1, 2, 3]), ("t", [1]), ("y", [1, 2]), ("k", [1]), ("s", [1]),
 OUT_NAMES = ["u", "v", "w"]
 DATA_NAMES = ["f", "g", "h"]
 PAR_NAMES = ["Dp", "Ep"]
+CFG = {"calls_max": 5, "cap": 100, "terms_max": 3}
+
+
+def configure(tier):
+    """thorough tier: longer call histories, larger point sets, longer residual components"""
+    if tier == "thorough":
+        CFG.update(calls_max=8, cap=220, terms_max=4)
+    else:
+        CFG.update(calls_max=5, cap=100, terms_max=3)
 
 
 def gen_vars(rng, nmin=1, nmax=3, maxdim=5, force=None):
@@ -155,7 +164,7 @@ def gen_residual(rng, atoms, ncomp, must, deriv, integral=None):
     pool = atoms["out"] + atoms["coord"] + atoms["data"] + atoms["par"] + atoms["dflt"] + atoms.get("fs", [])
     for c in range(ncomp):
         comp = []
-        for t in range(int(rng.integers(1, 4))):
+        for t in range(int(rng.integers(1, CFG["terms_max"] + 1))):
             fac = []
             if t == 0:
                 fac.append(list(atoms["out"][int(rng.integers(0, len(atoms["out"])))]))
@@ -229,24 +238,36 @@ def one_per_object(at_list):
     return out
 
 
-def gen_sampler_case(rng, kind):
-    """pinn | mean | deepritz | single | adaptive_w | periodic | integro"""
-    c = {"kind": kind, "seed": int(rng.integers(0, 2 ** 31)), "calls": int(rng.integers(2, 6))}
-    if kind == "periodic":
+def _strip_finite(spec):
+    if spec.get("op") == "static":
+        spec["interval"] = None
+    return spec
+
+
+def gen_sampler_case(rng, kind, preset=None):
+    """pinn | mean | deepritz | single | adaptive_w | periodic | integro.  preset (C14 groups): common "vars", "data",
+    "params", "defaults", optionally "model"; group cases have no adaptive samplers, no joined parameters and no static
+    sampler with a finite interval together with data functions (that combination is C04's known deviation D24)."""
+    preset = preset or {}
+    group = bool(preset)
+    c = {"kind": kind, "seed": int(rng.integers(0, 2 ** 31)), "calls": int(rng.integers(2, CFG["calls_max"] + 1))}
+    if "vars" in preset:
+        vars_ = preset["vars"]
+    elif kind == "periodic":
         vars_ = gen_vars(rng, 1, 3, force={"t": 1})
+    elif kind == "integro":
+        vars_ = gen_vars(rng, 2, 3, force={"s": 1})
+    else:
+        vars_ = gen_vars(rng, 1, 3)
+    others = [v["name"] for v in vars_]
+    if kind == "periodic":
         c["periodic_var"] = "t"
         for v in vars_:
             if v["name"] == "t":
                 v["dom"] = "rect"
         others = [v["name"] for v in vars_ if v["name"] != "t"]
-    elif kind == "integro":
-        vars_ = gen_vars(rng, 2, 3, force={"s": 1})
-        others = [v["name"] for v in vars_]
-    else:
-        vars_ = gen_vars(rng, 1, 3)
-        others = [v["name"] for v in vars_]
     c["vars"] = vars_
-    c["model"] = gen_model(rng, vars_)
+    c["model"] = preset.get("model") or gen_model(rng, vars_)
     outs = c["model"]["outs"]
     # samplers
     if kind == "adaptive_w":
@@ -255,25 +276,35 @@ def gen_sampler_case(rng, kind):
         c["aw"] = np.round(rng.uniform(0.2, 2.0, size=planned_n(c["sampler"])), 3).tolist()
     elif kind == "periodic":
         if others:
-            c["sampler"] = gen_sampler(rng, vars_, others, cap=40, allow_concat=False)
+            c["sampler"] = gen_sampler(rng, vars_, others, cap=40, allow_concat=False,
+                                       static=(rng.random() < 0.15) if group else None)
         else:
             c["sampler"] = {"op": "empty"}
     elif kind == "integro":
         c["sampler"] = gen_sampler(rng, vars_, others, cap=30)
         c["int_sampler"] = gen_sampler(rng, vars_, ["s"], cap=6, allow_concat=False)
     else:
-        if kind == "pinn" and rng.random() < 0.08:
+        if kind == "pinn" and rng.random() < 0.08 and not group:
             c["sampler"] = {"op": "leaf", "vars": others, "kind": str(rng.choice(["adaptive_thr", "adaptive_rand"])),
                             "n": int(rng.integers(4, 30))}
         else:
-            c["sampler"] = gen_sampler(rng, vars_, others, cap=100)
+            c["sampler"] = gen_sampler(rng, vars_, others, cap=CFG["cap"])
     # data functions, parameters, defaults
-    c["data"] = gen_data(rng, vars_)
-    c["params"] = _fill_params(rng, gen_params(rng))
-    if len(c["params"]) > 1 and rng.random() < 0.12:
+    c["data"] = preset["data"] if "data" in preset else gen_data(rng, vars_)
+    if kind == "integro" and c["data"] and c["sampler"]["op"] == "static" and rng.random() < (1.0 if group else 0.6):
+        c["sampler"] = c["sampler"]["a"]        # keep the known static+data layout deviation of integro conditions rare
+    if group and c["data"]:
+        _strip_finite(c["sampler"])
+        if "int_sampler" in c:
+            _strip_finite(c["int_sampler"])
+    c["params"] = preset["params"] if "params" in preset else _fill_params(rng, gen_params(rng))
+    if len(c["params"]) > 1 and rng.random() < 0.12 and not group:
         c["param_mode"] = "joined"
-    c["defaults"] = {"cdef": np.round(rng.uniform(0.5, 1.5, size=int(rng.integers(1, 3))), 3).tolist()} \
-        if rng.random() < 0.25 else {}
+    if "defaults" in preset:
+        c["defaults"] = preset["defaults"]
+    else:
+        c["defaults"] = {"cdef": np.round(rng.uniform(0.5, 1.5, size=int(rng.integers(1, 3))), 3).tolist()} \
+            if rng.random() < 0.25 else {}
     if rng.random() < 0.5:
         c["weight"] = round(float(rng.uniform(0.1, 5.0)), 3)
     # residual
@@ -310,9 +341,10 @@ def gen_sampler_case(rng, kind):
     return c
 
 
-def gen_pideeponet_case(rng):
+def gen_pideeponet_case(rng, preset=None):
+    preset = preset or {}
     c = {"kind": "pideeponet", "seed": int(rng.integers(0, 2 ** 31)), "calls": int(rng.integers(2, 5))}
-    vars_ = gen_vars(rng, 1, 2, maxdim=3)
+    vars_ = preset["vars"] if "vars" in preset else gen_vars(rng, 1, 2, maxdim=3)
     c["vars"] = vars_
     c["model"] = gen_model(rng, vars_, deeponet=True)
     outs = c["model"]["outs"]
@@ -325,8 +357,10 @@ def gen_pideeponet_case(rng):
     c["don"] = {"fvars": fv, "kvar": kvar, "fout": fout, "fs": fs, "nf": int(rng.integers(2, 6)),
                 "disc_n": int(rng.integers(3, 7)), "neurons": nd * int(rng.integers(2, 5))}
     c["sampler"] = gen_sampler(rng, vars_, names, cap=30)
-    c["data"] = gen_data(rng, vars_, nmax=2)
-    c["params"] = _fill_params(rng, gen_params(rng, 0.3))
+    c["data"] = preset["data"] if "data" in preset else gen_data(rng, vars_, nmax=2)
+    if preset and c["data"]:
+        _strip_finite(c["sampler"])
+    c["params"] = preset["params"] if "params" in preset else _fill_params(rng, gen_params(rng, 0.3))
     c["defaults"] = {}
     at = atoms_for(vars_, outs, c["data"], c["params"], {})
     at["fs"] = [["fs", "a", j, ""] for j in range(fout["dim"])]
@@ -345,7 +379,7 @@ def gen_pideeponet_case(rng):
 
 
 def gen_data_case(rng):
-    c = {"kind": "data", "seed": int(rng.integers(0, 2 ** 31)), "calls": int(rng.integers(2, 6))}
+    c = {"kind": "data", "seed": int(rng.integers(0, 2 ** 31)), "calls": int(rng.integers(2, CFG["calls_max"] + 1))}
     vars_ = gen_vars(rng, 1, 3)
     c["vars"] = vars_
     c["model"] = gen_model(rng, vars_)
@@ -402,3 +436,103 @@ def gen_param_case(rng):
     c["sigargs"], c["sig"] = make_sig(rng, c["residual"])
     c["weight"] = round(float(rng.uniform(0.1, 5.0)), 3)
     return c
+
+
+# ---------------------------------------------------------------------------------------------
+# C14: groups of conditions that share user objects
+# ---------------------------------------------------------------------------------------------
+
+GROUP_KINDS = [("pinn", 0.36), ("single", 0.10), ("mean", 0.08), ("periodic", 0.20), ("integro", 0.10),
+               ("pideeponet", 0.10), ("adaptive_w", 0.06)]
+
+
+def _seed_samplers(rng, spec):
+    """every top-level sampler object becomes a deterministic function of its call count"""
+    if spec is None or spec["op"] == "empty":
+        return
+    spec["seeded"] = int(rng.integers(0, 2 ** 30))
+
+
+def _all_grid(spec, dims):
+    """deterministic irrespective of the random state: grids over one-dimensional variables without a filter"""
+    if spec["op"] == "leaf":
+        return spec["kind"] == "grid" and all(dims[v] == 1 for v in spec["vars"]) and not spec.get("filter")
+    if spec["op"] in ("prod", "concat"):
+        return _all_grid(spec["a"], dims) and _all_grid(spec["b"], dims)
+    if spec["op"] == "static":
+        return _all_grid(spec["a"], dims)
+    return False
+
+
+def gen_group_case(rng):
+    n = int(rng.choice([2, 2, 3, 3, 4]))
+    names = [k for k, _ in GROUP_KINDS]
+    p = np.array([w for _, w in GROUP_KINDS])
+    p = p / p.sum()
+    kinds = [names[int(rng.choice(len(names), p=p))] for _ in range(n)]
+    force = {}
+    if "periodic" in kinds:
+        force["t"] = 1
+    if "integro" in kinds:
+        force["s"] = 1
+    maxdim = 3 if "pideeponet" in kinds else 5
+    vars_ = gen_vars(rng, max(1, len(force) + (1 if "integro" in kinds and len(force) == 1 else 0)), 3,
+                     maxdim=maxdim, force=force or None)
+    for v in vars_:
+        if v["name"] == "t":
+            v["dom"] = "rect"
+    g = {"kind": "group", "seed": int(rng.integers(0, 2 ** 31)),
+         "rounds": int(rng.integers(2, 5 if CFG["calls_max"] <= 5 else 7)), "vars": vars_}
+    share = {"dict": bool(rng.random() < 0.8), "model": bool(rng.random() < 0.5), "param": bool(rng.random() < 0.5),
+             "defaults": bool(rng.random() < 0.7)}
+    data = gen_data(rng, vars_, nmax=3, nmin=0 if rng.random() < 0.15 else 1, p_const=0.05)
+    params = _fill_params(rng, gen_params(rng, 0.4))
+    defaults = {"cdef": np.round(rng.uniform(0.5, 1.5, size=int(rng.integers(1, 3))), 3).tolist()} \
+        if rng.random() < 0.4 else {}
+    model = gen_model(rng, vars_)
+    conds = []
+    for i, k in enumerate(kinds):
+        preset = {"vars": vars_, "data": data, "params": params, "defaults": defaults}
+        if share["model"] and k != "pideeponet":
+            preset["model"] = model
+        if k == "pideeponet":
+            c = gen_pideeponet_case(rng, preset)
+        else:
+            c = gen_sampler_case(rng, k, preset)
+        c["name"] = "cond%d_%s" % (i, k)
+        _seed_samplers(rng, c["sampler"] if c["sampler"]["op"] != "static" else c["sampler"]["a"])
+        if "int_sampler" in c:
+            _seed_samplers(rng, c["int_sampler"] if c["int_sampler"]["op"] != "static" else c["int_sampler"]["a"])
+        conds.append(c)
+    dims = {v["name"]: v["dim"] for v in vars_}
+    # shared sampler objects: a later condition re-uses the (static, never resampled or purely grid) sampler of an earlier one
+    for j in range(1, len(conds)):
+        if rng.random() < 0.35:
+            cands = [i for i in range(j) if conds[i]["kind"] not in ("periodic", "adaptive_w")
+                     and conds[j]["kind"] not in ("periodic", "adaptive_w")
+                     and ((conds[i]["sampler"]["op"] == "static" and conds[i]["sampler"].get("interval") is None)
+                          or _all_grid(conds[i]["sampler"], dims))
+                     and not (conds[j]["kind"] == "integro" and data and conds[i]["sampler"]["op"] == "static")]
+            if cands:
+                i = cands[int(rng.integers(0, len(cands)))]
+                conds[i]["sampler"]["share"] = "S%d" % i
+                conds[j]["sampler"] = dict(conds[i]["sampler"])
+    # same sampler structure (hence the same number of points) but an own object with an own seed
+    import copy
+    for j in range(1, len(conds)):
+        if "share" not in conds[j]["sampler"] and rng.random() < 0.3:
+            cands = [i for i in range(j) if conds[i]["kind"] not in ("periodic", "adaptive_w")
+                     and conds[j]["kind"] not in ("periodic", "adaptive_w")
+                     and not (conds[j]["kind"] == "integro" and data and conds[i]["sampler"]["op"] == "static")]
+            if cands:
+                i = cands[int(rng.integers(0, len(cands)))]
+                sp = copy.deepcopy(conds[i]["sampler"])
+                sp.pop("share", None)
+                _seed_samplers(rng, sp if sp["op"] != "static" else sp["a"])
+                conds[j]["sampler"] = sp
+    g["conds"] = conds
+    g["data"], g["params"], g["defaults"] = data, params, defaults
+    g["share"] = share
+    g["build_order"] = [int(i) for i in rng.permutation(n)]
+    g["eval_orders"] = [[int(i) for i in rng.permutation(n)] for _ in range(g["rounds"])]
+    return g
